@@ -17,6 +17,7 @@ import (
 
 	"kvassverif/internal/cfggen"
 	"kvassverif/internal/core"
+	"kvassverif/internal/e2"
 	"kvassverif/internal/sc"
 	"tkestack.io/kvass/pkg/target"
 )
@@ -414,20 +415,28 @@ func init() {
 	core.Register(&core.Prop{
 		ID:    "C11",
 		Level: "exploration",
-		Rule: "differential against the vendored Prometheus loader: case = generated configuration (1-4 jobs, every auth kind: basic, bearer_token, authorization, tls (files or inline), oauth2; SD kinds static/file/kubernetes/dns/http; global, rule files, alerting with and without credentials, 0-2 remote_write and remote_read entries with bearer tokens / passwords / authorization, all secrets unique recognisable strings) + an assignment (jobs with 0/1/2/5 targets, optionally targets of a job that does not exist) + self-monitoring on/off, pushed through a real sidecar's API; then a configuration differing only in external labels, then a second configuration (a job added, the last job removed, a setting changed) while targets are assigned, then a changed assignment under it - the file is re-checked after each phase; plus overlap cases: a slow call (40-job configuration / 2400-target assignment) and a fast call of the other kind reach one sidecar 0-15 ms apart in 8 rounds, after both returned the file must show the pushed configuration and the posted assignment; " +
+		Rule: "differential against the vendored Prometheus loader: case = generated configuration (1-4 jobs, every auth kind: basic, bearer_token, authorization, tls (files or inline), oauth2; SD kinds static/file/kubernetes/dns/http; global, rule files, alerting with and without credentials, 0-2 remote_write and remote_read entries with bearer tokens / passwords / authorization, all secrets unique recognisable strings) + an assignment (jobs with 0/1/2/5 targets, optionally targets of a job that does not exist) + self-monitoring on/off, pushed through a real sidecar's API; then a configuration differing only in external labels, then a second configuration (a job added, the last job removed, a setting changed) while targets are assigned, then a changed assignment under it - the file is re-checked after each phase; in a third of the cases the write of the generated file fails once while the second configuration is applied, after which the coordinator's usual actions must bring the file to that configuration; plus 4/24 cases on the REAL `kvass sidecar` process restarted twice on its volume (the file must list the resumed assignment); plus overlap cases: a slow call (40-job configuration / 2400-target assignment) and a fast call of the other kind reach one sidecar 0-15 ms apart in 8 rounds, after both returned the file must show the pushed configuration and the posted assignment; " +
 			"the generated file is loaded with config.Load and compared field-wise with the loaded original (jobs and order, static entries <-> assigned hashes, scheme/proxy/auth removal, kept settings, byte scan for job secrets, global/rules/alerting/remote sections via YAML rendering plus a reflective walk over every Secret value); " +
 			"non-trivial = every case the sidecar accepts; distinct = hash of the text, self-monitor flag and assignment size",
 		Assumptions: []string{"secrets use a YAML-plain alphabet (no quoting needed)", "sections are compared through yaml.Marshal of the loaded structs plus the reflective secret walk"},
 		NumCases: func(tier string) int {
 			if tier == "thorough" {
-				return 20000 + c11OverlapThorough
+				return 20000 + c11OverlapThorough + 24
 			}
-			return 1500 + c11OverlapQuick
+			return 1500 + c11OverlapQuick + 4
 		},
 		Run: func(w *core.WorkerCtx, idx int) *core.CaseResult {
 			n := 1500
 			if w.Tier == "thorough" {
 				n = 20000
+			}
+			ov := c11OverlapQuick
+			if w.Tier == "thorough" {
+				ov = c11OverlapThorough
+			}
+			if idx >= n+ov {
+				// the REAL `kvass sidecar` restarted on its volume: the file it generates must list the resumed assignment
+				return e2.RealRestartCase(w, idx-n-ov, "C11")
 			}
 			if idx >= n {
 				return runC11Overlap(w, idx-n)
